@@ -90,6 +90,38 @@ def _check(world: World, host: AppHost, session: Session, out: Outcome) -> None:
     for inst in host.instances:
         by_tag.setdefault(inst.tag, inst)
     cfg = world.config
+    # every client pace ends in delivery: a send may wait for the client, but not while the client is
+    # connected, reading and (HTTP/2) has granted credit on both the stream and the connection
+    for plan in session.conns:
+        conn = plan.script.conn if plan.script is not None else None
+        t_end = world.trigger_at  # the scenario is over when the harness begins the final shutdown
+        if conn is None or conn.accepted_at is None:
+            continue
+        if conn.server.closed_at is not None and (t_end is None or conn.server.closed_at < t_end):
+            continue
+        client = conn.client
+        if not client.reading or client.closed or client.fin_sent or (client.rst_at is not None and (t_end is None or client.rst_at < t_end)):
+            continue
+        for req in plan.reqs:
+            inst = by_tag.get(req.tag)
+            if inst is None or not any(e[3] == "pending" or (e[3] == "cancelled" and t_end is not None
+                                                           and e[5] >= t_end and e[1] < t_end - 30.0)
+                                       for e in inst.sends):
+                continue
+            if plan.proto == "h2":
+                st = plan.peer.streams.get(req.sid)
+                if st is None or st.reset is not None or plan.peer.conn_recv_window <= 0 or st.recv_window <= 0:
+                    continue
+                detail = f"connection window {plan.peer.conn_recv_window}, stream window {st.recv_window}"
+            else:
+                detail = "client reading"
+            # known finding F06: the server's own put of http.disconnect is stuck behind a full receive
+            # queue of some instance on this connection
+            full = any(by_tag.get(r.tag) is not None and len(by_tag[r.tag].leftover) >= cfg.max_app_queue_size
+                       for r in plan.reqs)
+            bad("stuck-send", f"{req.tag!r}: the application is still waiting in send() at the end of the run "
+                f"although the client is connected and accepting data ({detail})", proto=plan.proto,
+                cause="recv-queue-full" if full else "other")
     for plan in session.conns:
         if plan.proto == "h1":
             parser = plan.parser
